@@ -50,4 +50,20 @@ macro "instr_tac_canon" ops:ident : tactic => `(tactic| (
   all_goals (try (simp only [fadd, fsub, fneg, splitHi, splitLo, two32, u32max, two64, P] at *))
   all_goals (try omega)))
 
+/-- Variant that also removes reductions modulo 2^64 and modulo p of values that are provably small
+    (u32 products and sums), which `omega` cannot see through on its own. -/
+macro "instr_tac_mod" ops:ident : tactic => `(tactic| (
+  intro vm hl hP
+  obtain ⟨s0, s1, s2, s3, s4, s5, s6, s7, s8, s9, s10, s11, s12, s13, s14, s15, rest, hs⟩ := exists16 hl
+  obtain ⟨c0, c1, c2, c3, c4, c5, c6, c7, c8, c9, c10, c11, c12, c13, c14, c15⟩ := canon16 hP hs
+  simp [stackRun_eq, runOps_cons, runOps_nil, step_eq_map, Except.map_ok', Except.map_error',
+    Except.bind_ok', Except.bind_error', Except.map_ite, Except.bind_ite, $ops:ident, Vm.stepCore, Vm.setStack, Vm.dup, Vm.movup, Vm.movdn,
+    insertAt, hs, Spec.sem, Refines, pad16_eq, Spec.failWith, Spec.failAny, Spec.undef, fadd_fneg,
+    Spec.b2n, Spec.isU32s]
+  all_goals (try (split_ifs <;> simp_all))
+  all_goals (try (simp only [fadd, fsub, fneg, fmul, splitHi, splitLo, two32, u32max, two64, P, Spec.rotl32,
+    Nat.reducePow, Nat.reduceSub] at *))
+  all_goals (try (simp (disch := omega) only [Nat.mod_eq_of_lt] at *))
+  all_goals (try omega)))
+
 end Miden
